@@ -36,7 +36,25 @@ def gen_clustering(rng):
     bb = hist.make_bb(cfg)
     A = np.array(rows, dtype=np.uint8)
     bb.fit(A, input_is_packed=False)
-    return nf, rows, bb.get_cluster_mol_ids()
+    clusters = [list(map(int, c)) for c in bb.get_cluster_mol_ids()]
+    # member lists are ascending after a plain fit; refine / recluster produce other orders, so
+    # half of the cases permute them: randomly, or so that last - first == size - 1 although the
+    # members are not a contiguous run (a contiguity test on the end points would be fooled)
+    if rng.random() < 0.5:
+        out = []
+        for c in clusters:
+            c = list(c)
+            rng.shuffle(c)
+            s_ = set(c)
+            pairs = [x for x in c if x + len(c) - 1 in s_ and len(c) > 1]
+            if pairs and rng.random() < 0.7:
+                x = rng.choice(pairs)
+                y = x + len(c) - 1
+                mid = [v for v in c if v not in (x, y)]
+                c = [x] + mid + [y]
+            out.append(c)
+        clusters = out
+    return nf, rows, clusters
 
 
 def suite_analysis(seed, tier):
